@@ -66,7 +66,7 @@ RULE = ("every statement/block form of the generated grammar in a minimal contex
         "builder calls (kwargs and explicit methods, special constructors); histories of 3-8 operations; distinct = hash of "
         "input line; non-trivial = a non-empty dictionary or an exception outcome")
 
-API = PA.load()
+API = PA.load(strict=False)
 CLASSES = API["classes"]
 CLS_IDX = {name: i for i, (name, _tn, _a) in enumerate(CLASSES)}
 CLS_ATTRS = {name: dict(attrs) for name, _tn, attrs in CLASSES}
@@ -622,18 +622,21 @@ def calls_of(rng, nodes, cls_name, explicit=0.3):
             n = len(args)
             kind = attrs.get(name)
             if n == 0:
-                if kind == "enable" and rng.random() > explicit:
+                # the classes MEANT for these statements are used through keyword arguments whatever the attribute
+                # tables of the code under test say (a renamed attribute must show up as a wrong tree)
+                if (kind == "enable" or cls_name in ("ExecuteOptionsBlock", "BeaconGateBlock")) and rng.random() >= explicit:
                     out.append(f"kv:{nm(name)}:sx54")
                 else:
                     out.append(f"en:{nm(name)}")
             elif n == 1:
-                if kind in (None, "setOption") and rng.random() > explicit:
+                if kind in (None, "setOption") and rng.random() >= explicit:
                     out.append(f"kv:{nm(name)}:{args[0].word()}")
                 else:
                     out.append(f"so:{nm(name)}:{args[0].word()}")
             elif n == 2:
                 ws = [args[0].word(), args[1].word()]
-                if kind in ("pair", "header", "parameter") and (kind == "pair" or name == kind) and rng.random() > explicit:
+                meant = cls_name in ("HttpOptionsBlock", "HttpConfigBlock", "StageTransformBlock")
+                if ((kind in ("pair", "header", "parameter") and (kind == "pair" or name == kind)) or meant) and rng.random() >= explicit:
                     out.append(f"kp:{nm(name)}:1")
                 elif name == "header" and rng.random() < 0.3:
                     out.append("hd:1")
@@ -649,7 +652,7 @@ def calls_of(rng, nodes, cls_name, explicit=0.3):
             name = label_name(f)
             blk = block_words(rng, f, v, body, explicit)
             r = rng.random()
-            if attrs.get(name) is None and r > explicit:
+            if attrs.get(name) is None and r >= explicit:
                 out.append(f"kb:{nm(name)}")
             elif r < 0.15 and (body or v is not None):
                 out.append(f"ne:{nm(name)}")
@@ -751,8 +754,8 @@ def gen(tier, rng, shard, nshards):
     def src_case(nodes, **kw):
         return "src", "src " + hx(render(rng, toks_of(nodes), **kw))
 
-    def both_case(nodes):
-        words = calls_of(rng, nodes, "C2Profile", explicit=rng.choice([0.0, 0.3, 1.0])) + ["E"]
+    def both_case(nodes, explicit=None):
+        words = calls_of(rng, nodes, "C2Profile", explicit=rng.choice([0.0, 0.3, 1.0]) if explicit is None else explicit) + ["E"]
         return "both", "both " + hx(render(rng, toks_of(nodes), messy=rng.random() < 0.3)) + " " + " ".join(words)
 
     # (a) every form in a minimal context: as source (raw nasty literals) and, where expressible, as builder calls
@@ -765,6 +768,7 @@ def gen(tier, rng, shard, nshards):
             g = AGen(rng, raw_ok=False, star_max=2, one_dt=True)
             nodes = g.cover(f, depth=rep % 2)
             if builder_expressible(nodes):
+                yield both_case(nodes, explicit=0.0)
                 yield both_case(nodes)
     # (b) every block: empty / variant / "default" / repeated, with one statement of every form of its body
     for f in BLOCK_FORMS:
@@ -793,14 +797,14 @@ def gen(tier, rng, shard, nshards):
             if builder_expressible(nodes):
                 yield both_case(nodes)
     # (d) random profiles
-    nrand = (9000 if thorough else 420) // nshards
+    nrand = (9000 if thorough else 800) // nshards
     for _ in range(nrand):
         g = AGen(rng, raw_ok=True, star_max=rng.choice([1, 2, 3]), nasty=rng.choice([0.0, 0.3, 0.6]))
         nodes = g.cover(rng.choice(lex_forms), depth=rng.choice([0, 1, 1, 2]))
         if len(toks_of(nodes)) > 160:
             continue
         yield src_case(nodes, tight=rng.choice([0.0, 0.3, 0.9]))
-    nboth = (7000 if thorough else 330) // nshards
+    nboth = (7000 if thorough else 600) // nshards
     for _ in range(nboth):
         g = AGen(rng, raw_ok=False, star_max=rng.choice([1, 2, 3]), one_dt=True)
         nodes = g.cover(rng.choice(lex_forms), depth=rng.choice([0, 1, 1, 2]))
@@ -809,7 +813,7 @@ def gen(tier, rng, shard, nshards):
         yield both_case(nodes)
 
     # ---- arbitrary builder call sequences
-    nbuild = (5000 if thorough else 260) // nshards
+    nbuild = (5000 if thorough else 400) // nshards
     for _ in range(nbuild):
         yield "build", "build " + " ".join(odd_calls(rng))
     if shard == 0:
@@ -817,14 +821,14 @@ def gen(tier, rng, shard, nshards):
             yield "build", "build " + " ".join(words)
 
     # ---- histories
-    nhist = (2500 if thorough else 110) // nshards
+    nhist = (2500 if thorough else 200) // nshards
     for _ in range(nhist):
         line = gen_hist(rng)
         if line:
             yield "hist", line
 
     # ---- trees
-    ntree = (4000 if thorough else 200) // nshards
+    ntree = (4000 if thorough else 320) // nshards
     for j in range(ntree):
         g = AGen(rng, raw_ok=True, star_max=2)
         nodes = g.cover(rng.choice(lex_forms), depth=rng.choice([0, 1]))
